@@ -134,9 +134,9 @@ CHECKS = {
  },
  "C05": {
   "title": "Surface syntax is immaterial",
-  "harnesses": [doc("VerifH_SurfaceSyntax", {"K": 2, "MENU": 0, "CM": 1}, {"K": 3, "MENU": 0, "CM": 1}),
-                doc("VerifH_SurfaceSyntax", {"K": 2, "MENU": 1, "CM": 1}, {"K": 3, "MENU": 1, "CM": 1}, full_schema_lib=True),
-                doc("VerifH_SurfaceSyntax", {"K": 3, "MENU": 2, "CM": 0}, {"K": 4, "MENU": 2, "CM": 1}, full_schema_lib=True),
+  "harnesses": [doc("VerifH_SurfaceSyntax", {"K": 2, "MENU": 0, "CM": 1}, {"K": 3, "MENU": 0, "CM": 0}, instances=[{}], instances_thorough=[{"K": 2, "CM": 2}]),
+                doc("VerifH_SurfaceSyntax", {"K": 2, "MENU": 1, "CM": 1}, {"K": 3, "MENU": 1, "CM": 0}, full_schema_lib=True),
+                doc("VerifH_SurfaceSyntax", {"K": 3, "MENU": 2, "CM": 0}, {"K": 4, "MENU": 2, "CM": 0}, full_schema_lib=True),
                 {"pkg": "directive", "fn": "VerifH_QuoteNeutral", "quick": {"N": 4}, "thorough": {"N": 6}}],
   "assumptions": DOC_ASSUME + ["one rewriting per run, at a symbolic position: comment line, block-comment line, blank line, indentation (spaces / tab), trailing blanks, trailing comment, CRLF or CR for every line end, quotes around a parameter, parentheses around the children of a directive"],
   "not_decided": DOC_NOT + ["combinations of several rewritings", "rewritings inside schema bodies and multi-line free text", "byte-level relational scanner harness (two scanners in lock step on symbolic bytes)"],
